@@ -5,7 +5,9 @@ import (
 	"encoding/json"
 	"fmt"
 
+	"github.com/cloudwego/kitex/client"
 	"github.com/cloudwego/kitex/pkg/rpcinfo"
+	"github.com/cloudwego/kitex/pkg/utils"
 	routev3 "github.com/envoyproxy/go-control-plane/envoy/config/route/v3"
 	"google.golang.org/protobuf/types/known/anypb"
 	"google.golang.org/protobuf/types/known/wrapperspb"
@@ -20,6 +22,12 @@ type pickCase struct {
 	ID      int      `json:"id"`
 	Weights []uint32 `json:"weights"`
 	N       int      `json:"n"`
+	// Names[i]: index of the name cluster i is listed under (a route may list one cluster several times); empty: all distinct.
+	// Counts are reported per name, in the order of first occurrence.
+	Names []int `json:"names"`
+	// Suites: the retry and circuit-breaker consumers of a client suite are registered on the same manager and have been
+	// run for the route table before the calls are routed (as in a client built with NewClientSuite)
+	Suites bool `json:"suites"`
 }
 
 type pickObs struct {
@@ -53,8 +61,13 @@ func runPick(raw json.RawMessage) (interface{}, error) {
 	var pcs []*routev3.WeightedCluster_ClusterWeight
 	for i, w := range c.Weights {
 		n := fmt.Sprintf("c%d", i)
+		if i < len(c.Names) {
+			n = fmt.Sprintf("c%d", c.Names[i])
+		}
 		pcs = append(pcs, &routev3.WeightedCluster_ClusterWeight{Name: n, Weight: wrapperspb.UInt32(w)})
-		idx[n] = i
+		if _, ok := idx[n]; !ok {
+			idx[n] = len(idx)
+		}
 	}
 	rcpb := &routev3.RouteConfiguration{Name: "rc", VirtualHosts: []*routev3.VirtualHost{{Name: "vh", Routes: []*routev3.Route{{
 		Match: &routev3.RouteMatch{PathSpecifier: &routev3.RouteMatch_Prefix{Prefix: "/"}},
@@ -78,10 +91,16 @@ func runPick(raw json.RawMessage) (interface{}, error) {
 	fm.set(xdsresource.ListenerType, "svc", lis, nil)
 	fm.set(xdsresource.RouteConfigType, "rc", decoded["rc"], nil)
 	setTarget(fm)
+	if c.Suites {
+		cos := &client.Options{}
+		xdssuite.NewRetryPolicy().F(cos, &utils.Slice{})
+		xdssuite.NewCircuitBreaker().F(cos, &utils.Slice{})
+		fm.fire(xdsresource.RouteConfigType)
+	}
 	router := xdssuite.NewXDSRouter()
 	to := rpcinfo.NewEndpointInfo("svc", "method", nil, nil)
 	ri := rpcinfo.NewRPCInfo(nil, to, rpcinfo.NewInvocation("svc", "method", "pkg"), rpcinfo.NewRPCConfig(), nil)
-	obs := pickObs{ID: c.ID, Counts: make([]int, len(c.Weights))}
+	obs := pickObs{ID: c.ID, Counts: make([]int, len(idx))}
 	for k := 0; k < c.N; k++ {
 		res, err, p := routeOnce(router, ri)
 		fm.calls = fm.calls[:0]
